@@ -309,7 +309,7 @@ pub fn gen_world(r: &mut Rng, o: &GenOpts) -> World {
         r.shuffle(&mut fnames);
         // generic struct: 1-2 parameters, used by its fields
         let mut generics: Vec<&'static str> = vec![];
-        if o.generics && kind == Kind::Struct && r.chance(1, 7) {
+        if o.generics && (kind == Kind::Struct || kind == Kind::AlgEnum) && r.chance(1, 7) {
             let k = r.range(1, 2) as usize;
             let start = r.below(GPARAMS.len() as u64) as usize;
             for j in 0..k {
@@ -363,7 +363,9 @@ pub fn gen_world(r: &mut Rng, o: &GenOpts) -> World {
                 for (fi, _) in fields.iter().enumerate() {
                     variants.push((format!("Wrap{fi}"), 1));
                 }
-                if r.chance(1, 2) {
+                // a generic enum always gets the struct variant, so that several type
+                // parameters meet in one generated helper type
+                if r.chance(1, 2) || !generics.is_empty() {
                     variants.push(("Shape".to_string(), 2));
                 }
             }
@@ -426,7 +428,9 @@ pub fn render_item(it: &GItem) -> String {
     let gen = if it.generics.is_empty() { String::new() } else { format!("<{}>", it.generics.join(", ")) };
     match it.kind {
         Kind::Const => {
-            s.push_str(&format!("pub const {}: u32 = {};\n", it.name, it.const_val));
+            // integer types of several widths (back ends may group or format constants by type)
+            let ty = ["u32", "i32", "u8", "u16", "i16", "i8", "U53", "I54"][(it.const_val % 8) as usize];
+            s.push_str(&format!("pub const {}: {ty} = {};\n", it.name, it.const_val % 100));
         }
         Kind::Alias => {
             if let Some(rn) = &it.serde_rename {
@@ -486,7 +490,7 @@ pub fn render_item(it: &GItem) -> String {
                 sa.push(format!("rename = \"{rn}\""));
             }
             s.push_str(&format!("#[serde({})]\n", sa.join(", ")));
-            s.push_str(&format!("pub enum {} {{\n", it.name));
+            s.push_str(&format!("pub enum {}{gen} {{\n", it.name));
             let mut fi = 0;
             for (v, k) in &it.variants {
                 match k {
